@@ -11,6 +11,11 @@ Oracles (written from the property statement, independent of the model): first b
 NaN for non-finite / above the last bin, every finite cell classified in [0, k-1], order preservation,
 equal-width intervals in exact rational arithmetic, percentile grid and bands, brute-force optimal
 partitions for natural_breaks (n <= 9).
+Every classifier call gets its raster in a recorded memory layout (C-contiguous, Fortran, strided view, negative
+strides, a window of a larger array) and dtype class (float32 / float64 / signed / unsigned integers); the harness
+keeps a private copy taken before the call: the oracles judge the result against the *original* cell values, and
+a raster that differs from the copy after the call is reported as the failing input (`<classifier>:input-modified`;
+the classes of a raster that was reordered under the caller's feet say nothing about the caller's cells).
 """
 import contextlib
 import io
@@ -263,12 +268,18 @@ def stream_cpu_bin(r, drv):
 
 
 # ---------------------------------------------------------------------------------------------- rasters
+NARROW_INTS = ["int16", "uint8"]
+RASTER_LAYOUTS = ["C", "C", "C", "F", "strided", "neg", "window"]
+
+
 def gen_raster(rng, kind=None, shape=None, dtype=None):
     """small rasters on exactly computable lattices; ties, NaN/inf, values not representable in float32"""
     h, w = shape or (rng.randrange(1, 5), rng.randrange(1, 6))
     n = h * w
     kind = kind or rng.choice(["small", "small", "ties", "half", "wide", "f32x", "bigint"])
-    dtype = dtype or rng.choice(["float64", "float64", "float32", "int32", "int64"])
+    dtype = dtype or rng.choice(["float64", "float64", "float32", "int32", "int64"] * 2 + NARROW_INTS)
+    if dtype in NARROW_INTS and kind not in ("small", "ties"):      # the narrow / unsigned types hold the small lattices only
+        dtype = rng.choice(["int32", "int64"])
     if kind == "small":
         vals = [rng.randrange(0, 12) for _ in range(n)]
     elif kind == "ties":
@@ -296,12 +307,61 @@ def gen_raster(rng, kind=None, shape=None, dtype=None):
     return a, kind
 
 
-def raster_json(a):
-    return dict(shape=list(a.shape), dtype=a.dtype.name, vals=toks(a.ravel().tolist()))
+def raster_json(a, layout="C"):
+    return dict(shape=list(a.shape), dtype=a.dtype.name, vals=toks(a.ravel().tolist()), layout=layout)
+
+
+def with_layout(rng, c):
+    """draw the memory layout of the case's raster"""
+    c["raster"]["layout"] = rng.choice(RASTER_LAYOUTS)
+    return c
+
+
+def lay_out(a, layout):
+    """the same cells in another memory layout"""
+    h, w = a.shape
+    if layout == "F":
+        return np.asfortranarray(a)
+    if layout == "strided":                     # every other column of a wider C array
+        big = np.zeros((h, 2 * w), dtype=a.dtype)
+        big[:, ::2] = a
+        return big[:, ::2]
+    if layout == "neg":                         # negative strides on both axes
+        return np.ascontiguousarray(a[::-1, ::-1])[::-1, ::-1]
+    if layout == "window":                      # a window of a larger C array
+        big = np.zeros((h + 2, w + 3), dtype=a.dtype)
+        big[1:h + 1, 2:w + 2] = a
+        return big[1:h + 1, 2:w + 2]
+    return a
 
 
 def raster_from(j):
-    return arr_of(j["vals"], j["dtype"], tuple(j["shape"]))
+    return lay_out(arr_of(j["vals"], j["dtype"], tuple(j["shape"])), j.get("layout", "C"))
+
+
+INPUT = {"changed": None}
+
+
+def raster_pair(c):
+    """(the raster handed to the classifier, a private C-ordered copy the classifier never sees)"""
+    a = raster_from(c["raster"])
+    INPUT["changed"] = None
+    return a, np.array(a, order="C", copy=True)
+
+
+def note_input(a, keep):
+    """after the call: is the caller's raster still what it was?  (bit for bit: NaN payloads, -0.0)"""
+    if a.dtype != keep.dtype or a.shape != keep.shape or np.ascontiguousarray(a).tobytes() != keep.tobytes():
+        INPUT["changed"] = (f"the input raster was modified by the call: before {keep.tolist()} ({keep.dtype}), "
+                            f"after {np.asarray(a).tolist()} ({a.dtype})")
+
+
+def input_failure(r, c):
+    """reports a modified input as the failing input of the case"""
+    if INPUT["changed"]:
+        r.fail(f"{c['kind']}:input-modified", f"{c['kind']}[{c.get('backend', 'numpy')}]: {INPUT['changed']}", c)
+        return True
+    return False
 
 
 def cells_tok(a):
@@ -393,8 +453,8 @@ def gen_reclass_edges(rng):
     if rng.random() < 0.15:
         bins[-1] = INF
     newv = [rng.randrange(0, 100) for _ in bins]
-    return dict(kind="reclassify", raster=raster_json(a), bins=toks(bins), newv=toks(newv),
-                backend=rng.choice(["numpy", "numpy", "dask"]), gen="edges")
+    return with_layout(rng, dict(kind="reclassify", raster=raster_json(a), bins=toks(bins), newv=toks(newv),
+                backend=rng.choice(["numpy", "numpy", "dask"]), gen="edges"))
 
 
 # ---------------------------------------------------------------------------------------------- reclassify / binary
@@ -412,13 +472,13 @@ def gen_reclass(rng, edges=None):
     mism = rng.random() < 0.08
     if mism:
         newv = newv[:-1] if rng.random() < 0.5 and n > 1 else newv + [7]
-    return dict(kind="reclassify", raster=raster_json(a), bins=toks(bins), newv=toks(newv),
-                backend=rng.choice(["numpy", "numpy", "dask"]), gen=kind)
+    return with_layout(rng, dict(kind="reclassify", raster=raster_json(a), bins=toks(bins), newv=toks(newv),
+                backend=rng.choice(["numpy", "numpy", "dask"]), gen=kind))
 
 
 def run_reclass(c):
     from xrspatial.classify import reclassify
-    a = raster_from(c["raster"])
+    a, keep = raster_pair(c)
     bins = [untok(t) for t in c["bins"]]
     if all(math.isfinite(b) and b == int(b) and abs(b) < 2 ** 53 for b in bins):
         bins = [int(b) for b in bins]
@@ -426,7 +486,8 @@ def run_reclass(c):
     st, out = call(reclassify, mk(a, c["backend"]), bins, newv)
     if st == "ok":
         st, out = call(compute, out)
-    return a, bins, newv, st, out
+    note_input(a, keep)
+    return keep, bins, newv, st, out
 
 
 def oracle_reclass(c, a, bins, newv, st, out):
@@ -478,18 +539,19 @@ def gen_binary(rng):
              [rng.randrange(0, 12) for _ in range(rng.randrange(0, 3))]
     if rng.random() < 0.15:
         values.append(NAN)
-    return dict(kind="binary", raster=raster_json(a), values=toks(values), backend=rng.choice(["numpy", "numpy", "dask"]),
-                gen=kind)
+    return with_layout(rng, dict(kind="binary", raster=raster_json(a), values=toks(values), backend=rng.choice(["numpy", "numpy", "dask"]),
+                gen=kind))
 
 
 def run_binary(c):
     from xrspatial.classify import binary
-    a = raster_from(c["raster"])
+    a, keep = raster_pair(c)
     values = [untok(t) for t in c["values"]]
     st, out = call(binary, mk(a, c["backend"]), values)
     if st == "ok":
         st, out = call(compute, out)
-    return a, values, st, out
+    note_input(a, keep)
+    return keep, values, st, out
 
 
 def oracle_binary(c, a, values, st, out):
@@ -512,7 +574,7 @@ def gen_equal_interval(rng, wild=False):
         if rng.random() < 0.5:
             a[rng.randrange(h), rng.randrange(w)] = rng.choice([np.nan, np.inf, -np.inf])
         k = rng.randrange(1, 12)
-        return dict(kind="equal_interval", raster=raster_json(a), k=k, backend=rng.choice(["numpy", "dask"]), gen="wild")
+        return with_layout(rng, dict(kind="equal_interval", raster=raster_json(a), k=k, backend=rng.choice(["numpy", "dask"]), gen="wild"))
     # exact: min, width dyadic, max = min + k * width, the other cells on a finer lattice in between
     k = rng.choice([1, 2, 3, 4, 5, 6, 7, 8, 10, 12])
     width = rng.choice([1, 2, 3, 0.5, 0.25, 8])
@@ -539,16 +601,17 @@ def gen_equal_interval(rng, wild=False):
             y, x = rng.randrange(h), rng.randrange(w)
             if a[y, x] not in (mn, mn + k * width):
                 a[y, x] = rng.choice([np.nan, np.inf, -np.inf])
-    return dict(kind="equal_interval", raster=raster_json(a), k=k, backend=rng.choice(["numpy", "numpy", "dask"]), gen="exact")
+    return with_layout(rng, dict(kind="equal_interval", raster=raster_json(a), k=k, backend=rng.choice(["numpy", "numpy", "dask"]), gen="exact"))
 
 
 def run_equal_interval(c):
     from xrspatial.classify import equal_interval
-    a = raster_from(c["raster"])
+    a, keep = raster_pair(c)
     st, out = call(equal_interval, mk(a, c["backend"]), c["k"])
     if st == "ok":
         st, out = call(compute, out)
-    return a, st, out
+    note_input(a, keep)
+    return keep, st, out
 
 
 def oracle_equal_interval(c, a, st, out):
@@ -618,18 +681,19 @@ def gen_quantile(rng, k=None):
         kind = "distinct"
     else:
         a, kind = gen_raster(rng, shape=(rng.randrange(2, 6), rng.randrange(2, 6)))
-    return dict(kind="quantile", raster=raster_json(a), k=k, gen=kind)
+    return with_layout(rng, dict(kind="quantile", raster=raster_json(a), k=k, gen=kind))
 
 
 def run_quantile(c):
     import xrspatial.classify as cl
-    a = raster_from(c["raster"])
+    a, keep = raster_pair(c)
     rec = RecModule()
     st, q = call(cl._run_quantile, a, c["k"], rec)
     st2, out = call(cl.quantile, mk(a), c["k"])
     if st2 == "ok":
         out = compute(out)
-    return a, rec, st, q, st2, out
+    note_input(a, keep)
+    return keep, rec, st, q, st2, out
 
 
 def oracle_quantile(c, a, rec, st, q, st2, out):
@@ -791,17 +855,20 @@ def check_jenks(r, c, rep_mat, rep_brk):
 
 # ---------------------------------------------------------------------------------------------- natural_breaks
 def gen_natural(rng, target=None):
+    """every dtype class x every way of sampling: `num_sample` None / = size / > size (the whole raster is the sample),
+    < size (a sub-sample); the cells are in no particular order (an already ascending raster hides a classifier that
+    reorders its input)"""
     kind = target or rng.choice(["small", "ties", "half", "wide", "f32x", "bigint", "sampled", "fallback-sampled"])
     shape = (rng.randrange(1, 4), rng.randrange(2, 5))
     if kind in ("sampled", "fallback-sampled"):
         a, _ = gen_raster(rng, kind="ties" if kind == "fallback-sampled" else "small", shape=shape,
-                          dtype=rng.choice(["float64", "int32"]))
+                          dtype=rng.choice(["float64", "float32", "int32", "int64"] + NARROW_INTS))
         ns = rng.randrange(1, a.size)
     else:
         a, _ = gen_raster(rng, kind=kind, shape=shape)
-        ns = rng.choice([None, None, a.size, a.size + 5])
+        ns = rng.choice([None, None, a.size, a.size + 5, rng.randrange(1, a.size)])
     k = rng.randrange(1, 6)
-    return dict(kind="natural_breaks", raster=raster_json(a), k=k, num_sample=ns, gen=kind)
+    return with_layout(rng, dict(kind="natural_breaks", raster=raster_json(a), k=k, num_sample=ns, gen=kind))
 
 
 def nb_sample(a, num_sample):
@@ -817,11 +884,12 @@ def nb_sample(a, num_sample):
 
 def run_natural(c):
     from xrspatial.classify import natural_breaks
-    a = raster_from(c["raster"])
+    a, keep = raster_pair(c)
     st, out = call(natural_breaks, mk(a), num_sample=c["num_sample"], k=c["k"])
     if st == "ok":
         out = compute(out)
-    return a, st, out
+    note_input(a, keep)
+    return keep, st, out
 
 
 def oracle_natural(c, a, st, out):
@@ -917,6 +985,8 @@ def eval_case_(r, c, drv_reply=None, stream=None):
             c, bad = shrink_reclass(c, bad)
             r.fail("reclassify:first-bin", bad, c)
             return True
+        if input_failure(r, c):
+            return True
         if drv_reply is not None and st == "ok":
             mo = [untok(t) for t in drv_reply.split(",")]
             if len(mo) != out.size or not all(same(x, y) for x, y in zip(out.ravel().tolist(), mo)):
@@ -927,6 +997,8 @@ def eval_case_(r, c, drv_reply=None, stream=None):
         bad = oracle_binary(c, a, values, st, out)
         if bad:
             r.fail("binary:membership", bad, c)
+            return True
+        if input_failure(r, c):
             return True
         if drv_reply is not None:
             body = drv_reply.split(":", 1)[1] if ":" in drv_reply else ""
@@ -940,6 +1012,8 @@ def eval_case_(r, c, drv_reply=None, stream=None):
         if bad:
             key, what = fail_key("equal_interval", bad)
             r.fail(key, what, c)
+            return True
+        if input_failure(r, c):
             return True
         if drv_reply is not None and c["gen"] == "exact":
             m = parse_res(drv_reply)
@@ -956,6 +1030,8 @@ def eval_case_(r, c, drv_reply=None, stream=None):
             key, what = fail_key("quantile", bad)
             r.fail(key, what, c)
             return True
+        if input_failure(r, c):
+            return True
         return (a, rec, st, q, st2, out)
     if kind == "natural_breaks":
         a, st, out = run_natural(c)
@@ -963,6 +1039,8 @@ def eval_case_(r, c, drv_reply=None, stream=None):
         if bad:
             key, what = fail_key("natural_breaks", bad)
             r.fail(key, what, c)
+            return True
+        if input_failure(r, c):
             return True
         if drv_reply is not None and st == "ok":
             compare_classes(r, "natural_breaks", c, out, drv_reply, a, tie_ok=True)
@@ -1008,7 +1086,10 @@ def stream_generic(r, drv, name, cases):
         a = c.get("raster", {})
         r.case(c, desc=c if i == 0 else None, nontrivial=True,
                tags=[f"{name}:gen={c.get('gen')}", f"{name}:dtype={a.get('dtype')}", f"{name}:backend={c.get('backend', 'numpy')}"]
-               + ([f"{name}:k={c['k']}"] if "k" in c else []))
+               + ([f"{name}:k={c['k']}"] if "k" in c else [])
+               + ([f"{name}:layout={a.get('layout', 'C')}"] if a else [])
+               + ([f"{name}:num_sample=" + ("None" if c["num_sample"] is None else ">=size" if c["num_sample"] >= len(a["vals"])
+                                            else "<size")] if "num_sample" in c else []))
         if a:
             vals = [untok(t) for t in a["vals"]]
             r.tag(f"{name}:cells-nonfinite", sum(1 for v in vals if v != v or math.isinf(v)))
@@ -1020,7 +1101,8 @@ def stream_quantile(r, drv, cases):
     pend, reqs = [], []
     for i, c in enumerate(cases):
         r.case(c, desc=c if i == 0 else None, nontrivial=True,
-               tags=[f"quantile:gen={c['gen']}", f"quantile:k={c['k']}", f"quantile:dtype={c['raster']['dtype']}"])
+               tags=[f"quantile:gen={c['gen']}", f"quantile:k={c['k']}", f"quantile:dtype={c['raster']['dtype']}",
+                     f"quantile:layout={c['raster'].get('layout', 'C')}"])
         res = eval_case(r, c)
         if res is True or res is False:
             continue
@@ -1088,7 +1170,10 @@ def run(r, scale=1):
     n = {"quick": 3, "thorough": 48}[r.tier] * scale
     r.rule = ("_cpu_bin: exhaustive (all weakly ascending bin lists of length <= 8 over a small alphabet x all half-integer "
               "positions + NaN/inf, 5 dtype pairs) + random ascending/+-inf/unsorted/NaN bins; classifiers: rasters <= 4x5 on "
-              "integer / half-integer / wide lattices, ties, NaN/+-inf cells, float32/float64/int32/int64, values not "
+              "integer / half-integer / wide lattices, ties, NaN/+-inf cells, float32/float64/int32/int64 (+ int16/uint8 on the "
+              "small lattices), memory layouts C / Fortran / strided / negative strides / window of a larger array, cells in no "
+              "particular order, a private copy taken before the call (oracles judge against it; a raster that differs from it "
+              "after the call is the failing input), natural_breaks with num_sample None / >= size / < size, values not "
               "representable in float32 (0.1, 1/3, 2^24+1, ...), numpy and dask backends, k in 1..12 (+23/29/31/36 for "
               "quantile), sampled natural_breaks; precision edges (reclassify, _cpu_bin): float32 / float64 / int32 / int64 "
               "cells with float64 bounds on, one ulp of either precision beside, and half way between the cells "
